@@ -85,4 +85,14 @@ CLAIMED["C18"] = {
     "note": TB + "; IEEE-754 order-embedding of non-negative doubles into their bit patterns",
     "technique": "Lean 4 proof on bit patterns (constants regenerated from the source) + differential correspondence",
 }
+CLAIMED["C17"] = {
+    "text": "Time/Frequency: theorem tf_expanded_sem (for every valid MOC the expansion is canonical and covers exactly the cells equal or adjacent to a cell of M, clipped to the "
+            "domain), theorem tf_contracted_range (repaired contraction, range by range), a proved counterexample for the original formula; the definition "
+            "contracted = not(expanded(not M)) is evaluated by the model on every generated case and compared with the code. A genuine defect (T/F contracted shrinking at the domain "
+            "bounds) was found and repaired. Partial: HEALPix expansion/borders/splitting/hole filling depend on the neighbour geometry of cdshealpix and are checked against an "
+            "independent brute-force oracle at depths 0-2 (test level), not proved.",
+    "design_ref": "DESIGN.md §4 C17, §10",
+    "note": TB + "; cdshealpix neighbours trusted as the definition of adjacency for the space oracle",
+    "technique": "Lean 4 proof (T/F) + differential correspondence + independent oracle for the space part",
+}
 NOT_YET = {}
